@@ -24,6 +24,7 @@ CONSTANTS
  DevNoFlushOnAck = FALSE
  DevTolerateLostIdx = FALSE
  DevRestoreCountsOrphan = TRUE
+ DevReadFloorSegment = FALSE
 INIT Init
 NEXT Next
 VIEW View
